@@ -276,13 +276,99 @@ func TestVerifC10TD(t *testing.T) {
 				slack := int64(busy)
 				out.Emit(verifh.Case{
 					ID: id,
-					Coq: verifh.App("mkTd", verifh.B(mon), f, verifh.Z(int64(fl)), res.outcome, verifh.Z(res.delay), verifh.Z(slack),
-						verifh.Z(int64(res.ioAfter)), verifh.B(res.canary), verifh.B(res.leak)),
+					Coq: "(CTd " + verifh.App("mkTd", verifh.B(mon), f, verifh.Z(int64(fl)), res.outcome, verifh.Z(res.delay), verifh.Z(slack),
+						verifh.Z(int64(res.ioAfter)), verifh.B(res.canary), verifh.B(res.leak)) + ")",
 					Input:    map[string]any{"monitor": mon, "fault": f, "flood": fl},
 					Observed: map[string]any{"outcome": res.outcome, "delay_ns": res.delay, "io_after": res.ioAfter, "canary": res.canary, "leak": res.leak},
 					Tags:     []string{"fault:" + f, fmt.Sprintf("monitor:%v", mon), fmt.Sprintf("flood:%d", fl)},
 				})
 			}
 		}
+	}
+}
+
+// TestVerifC10RX: receive retry timing. A monitor reads a script of timeouts / messages; the instants
+// of its ReadFrom calls give the back-off waits.
+func TestVerifC10RX(t *testing.T) {
+	out := verifh.Open()
+	defer out.Close()
+	r := verifh.NewRand(verifh.Seed(), "C10RX")
+	n := 80
+	if verifh.Thorough() {
+		n = 2000
+	}
+	var scripts [][]scriptRead
+	to := scriptRead{Kind: "timeout"}
+	for k := 1; k <= 7; k++ {
+		var s []scriptRead
+		for j := 0; j < k; j++ {
+			s = append(s, to)
+		}
+		scripts = append(scripts, s, append(append([]scriptRead{to, to, to, to, {Kind: "msg", Typ: 134, Hop: 255, Src: 2}}, s...), scriptRead{Kind: "msg", Typ: 133, Hop: 7, Src: 3}))
+	}
+	for k := 0; k < n; k++ {
+		var s []scriptRead
+		for j := r.Intn(30); j > 0; j-- {
+			switch {
+			case r.Chance(55):
+				s = append(s, to)
+			case r.Chance(3):
+				s = append(s, scriptRead{Kind: "err"})
+			default:
+				s = append(s, scriptRead{Kind: "msg", Typ: 133 + r.Intn(4), Hop: verifh.Pick(r, []int{255, 255, 64}), Src: 1 + r.Intn(5)})
+			}
+		}
+		scripts = append(scripts, s)
+	}
+	for i, script := range scripts {
+		id := fmt.Sprintf("rx-%d", i)
+		if !out.Wants(id) {
+			continue
+		}
+		var gaps []string
+		var gapsJ []int64
+		running := false
+		synctest.Test(t, func(t *testing.T) {
+			conn := newVConn()
+			state := newVState()
+			mm := NewMetrics(metricslite.NewMemory(), "test", time.Time{}, state, nil)
+			cctx := NewContext(log.New(io.Discard, "", 0), mm, state)
+			d := system.NewDialer("v0", state, system.Monitor, nil)
+			d.DialFunc = func() (*system.DialContext, error) {
+				return &system.DialContext{Conn: conn, Interface: &net.Interface{Name: "v0"}, IP: netip.MustParseAddr("fe80::1")}, nil
+			}
+			m := NewMonitor(cctx, "v0", d, nil, false)
+			for _, s := range script {
+				conn.readC <- s.toRead()
+			}
+			ctx, cancel := context.WithCancel(context.Background())
+			done := make(chan error, 1)
+			go func() { done <- m.Run(ctx) }()
+			time.Sleep(30 * time.Second)
+			synctest.Wait()
+			select {
+			case <-done:
+			default:
+				running = true
+			}
+			conn.mu.Lock()
+			rt := append([]int64(nil), conn.readTimes...)
+			conn.mu.Unlock()
+			for j := 1; j < len(rt); j++ {
+				gaps = append(gaps, verifh.Z(rt[j]-rt[j-1]))
+				gapsJ = append(gapsJ, rt[j]-rt[j-1])
+			}
+			cancel()
+			if running {
+				<-done
+			}
+		})
+		var sc []string
+		for _, s := range script {
+			sc = append(sc, s.coq())
+		}
+		out.Emit(verifh.Case{ID: id, Coq: verifh.App("CRx", verifh.List(sc), verifh.List(gaps), verifh.B(running)),
+			Input: map[string]any{"script": script}, Observed: map[string]any{"gaps_ns": gapsJ, "running": running},
+			Tags: []string{"stream:rx-retry"}})
 	}
 }
